@@ -21,9 +21,10 @@ FEATURES = {
     "wgrid": ["lin", "log", "extrap", "disc"],
     "k": ["none", "lin", "log"],
     "g": [0, 1],
+    # "h3": THREE labels, deps (h) (rows like (0.5, 0, 0.5) have a zero between positive entries)
     # "excl": deps (s, d) and a states-only filter excluding (s=2, h=1); e1.Built zeroes P(h'=1 | next_s = 2),
     # i.e. the excluded combination is a probability-zero node of the expectation
-    "h": ["none", "h", "hd", "dh", "ph", "s", "hg", "two", "restricted", "hp", "dph", "excl"],
+    "h": ["none", "h", "hd", "dh", "ph", "s", "hg", "two", "restricted", "hp", "dph", "excl", "h3"],
     # "tight": c <= w - 0.2629, so the lowest wealth states have NO feasible choice (supported only for T=1,
     # where their value must be exactly -inf)
     "cons": ["c", "none", "disc", "period", "param", "aux", "tight"],
@@ -300,7 +301,7 @@ def make_source(fv):
         P["next_k"] = {}
     hdeps = None
     if has_h:
-        hdeps = {"h": ["h"], "hd": ["h", "d"], "dh": ["d", "h"], "ph": ["_period", "h"], "s": ["s"], "hp": ["h", "_period"], "dph": ["d", "_period", "h"], "excl": ["s", "d"],
+        hdeps = {"h": ["h"], "hd": ["h", "d"], "dh": ["d", "h"], "ph": ["_period", "h"], "s": ["s"], "hp": ["h", "_period"], "dph": ["d", "_period", "h"], "excl": ["s", "d"], "h3": ["h"],
                  "hg": ["h", "g"], "two": ["h", "d"], "restricted": ["h", "d"]}[fv["h"]]
         L.append(f"@lcm.mark.stochastic\ndef next_h({', '.join(hdeps)}):\n    pass")
         funcs.append("next_h")
@@ -309,7 +310,7 @@ def make_source(fv):
     # ---------------- variables
     states = [("s", "D(3)"), ("w", {"lin": "Lin(1, 5, 5)", "log": "Log(0.8, 5, 5)", "extrap": "Lin(1, 5, 5)", "disc": "D(4)"}[fv["wgrid"]])]
     if has_h:
-        states.append(("h", "D(2)"))  # h before g: declaration order != alphabetical order
+        states.append(("h", "D(3)" if fv["h"] == "h3" else "D(2)"))  # h before g: declaration order != alphabetical order
     if has_g:
         states.append(("g", "D(2)"))
     if has_k:
@@ -333,7 +334,7 @@ def make_source(fv):
     shocks = {}
     allv = dict(states + choices)
     if has_h:
-        shocks["h"] = [T if d_ == "_period" else sizes[allv[d_]] for d_ in hdeps] + [2]
+        shocks["h"] = [T if d_ == "_period" else sizes[allv[d_]] for d_ in hdeps] + [3 if fv["h"] == "h3" else 2]
     if fv["h"] == "two":
         shocks["g"] = [2, 2]
     src = "\n\n".join(L)
